@@ -55,6 +55,24 @@ type (
 	Iface3 interface{}
 )
 
+// Named one-byte (and other scalar) types: reflect cannot create named types, and serix tells byte
+// sequences from sequences of elements by assignability to []byte, which a named uint8 element breaks.
+type (
+	NU8   uint8
+	NI8   int8
+	NBool bool
+	NU16  uint16
+	NF32  float32
+)
+
+var (
+	tNamedScalars = []reflect.Type{reflect.TypeOf(NU8(0)), reflect.TypeOf(NI8(0)), reflect.TypeOf(NBool(false)),
+		reflect.TypeOf(NU16(0)), reflect.TypeOf(NF32(0))}
+	// element types of "narrow" sequences: one-byte elements that are or are not plain bytes
+	tNarrow = []reflect.Type{reflect.TypeOf(NU8(0)), reflect.TypeOf(NU8(0)), reflect.TypeOf(NI8(0)), reflect.TypeOf(NBool(false)),
+		reflect.TypeOf(uint8(0)), reflect.TypeOf(int8(0)), reflect.TypeOf(false)}
+)
+
 var ifaceTypes = []reflect.Type{
 	reflect.TypeOf((*Iface0)(nil)).Elem(), reflect.TypeOf((*Iface1)(nil)).Elem(),
 	reflect.TypeOf((*Iface2)(nil)).Elem(), reflect.TypeOf((*Iface3)(nil)).Elem(),
@@ -255,6 +273,9 @@ var (
 )
 
 func (g *tgen) leaf() reflect.Type {
+	if g.rng.Chance(1, 8) {
+		return hx.Pick(g.rng, tNamedScalars)
+	}
 	switch x := g.rng.Intn(100); {
 	case x < 10:
 		return tBool
@@ -278,6 +299,9 @@ func (g *tgen) genType(depth int, c ctx) (reflect.Type, posSettings) {
 	x := g.rng.Intn(100)
 	if depth >= g.maxDepth {
 		x = g.rng.Intn(40)
+	}
+	if g.rng.Chance(1, 9) {
+		return g.narrowSeq(c)
 	}
 	switch {
 	case x < 22:
@@ -312,6 +336,39 @@ func (g *tgen) genType(depth int, c ctx) (reflect.Type, posSettings) {
 	default:
 		return g.ifaceType(depth + 1), posSettings{}
 	}
+}
+
+// narrowSeq: a slice or array of one-byte elements — plain bytes (a byte slice / byte array on the
+// wire) or a named uint8 / int8 / bool type (a length-prefixed sequence of elements) — with every
+// prefix width and, sometimes, an object code registered for the sequence type.
+func (g *tgen) narrowSeq(c ctx) (reflect.Type, posSettings) {
+	et := hx.Pick(g.rng, tNarrow)
+	var t reflect.Type
+	if g.rng.Bool() {
+		t = reflect.SliceOf(et)
+	} else {
+		t = reflect.ArrayOf(hx.Pick(g.rng, []int{0, 1, 2, 3, 4, 8}), et)
+	}
+	isBytes := t.Kind() == reflect.Slice && t.AssignableTo(bytesType)
+	isByteArr := t.Kind() == reflect.Array && reflect.SliceOf(et).AssignableTo(bytesType)
+	if !g.registered[t] && g.rng.Chance(1, 3) {
+		// registered with an object code (written for byte arrays, ignored for sequences of elements)
+		ts := serix.TypeSettings{}.WithLengthPrefixType(g.pickLP())
+		if g.rng.Bool() {
+			ts = ts.WithObjectType(uint8(g.freshCode() % 256))
+		} else {
+			ts = ts.WithObjectType(g.freshCode())
+		}
+		g.register(t, ts)
+		if c == ctxElem || g.rng.Bool() {
+			return t, posSettings{}
+		}
+	}
+	if isByteArr {
+		return t, posSettings{}
+	}
+
+	return t, g.collectionSettings(t, c, false, isBytes)
 }
 
 // elemType: a type for a position that cannot carry settings; says whether its encoding starts with a code.
